@@ -190,6 +190,8 @@ def build_case(spec, max_msgs=12, max_size=2000, adversary=True):
         "get_b": rng.choice(["eager", "eager", "lazy"]),
         "code": "%d-%s" % (rng.randint(1, 999), rng.choice(["alpha-beta", "purple-sausages", "x-y-z"])),
     }
+    if spec.get("dilate"):
+        cfg["dilation"] = True
     if kind == "perm":
         n = len(spec["perm"]) - 1
         cfg["plan_a"] = make_plan(rng, "A", n, gates=("any",))
